@@ -10,7 +10,7 @@ ALL_KINDS = {"single", "owned", "boxed", "ref", "retry"}
 
 S1, S2, S3, U4 = 1, 2, 3, 4   # arena slots: RwLock, RwLock, Mutex, owned unit over RwLocks 6,5
 
-HOLDERS_2 = {("single", (1,), "lock"), ("single", (1,), "read"), ("owned", (4,), "lock"),
+HOLDERS_2 = {("single", (1,), "lock"), ("single", (1,), "read"), ("single", (3,), "lock"), ("owned", (4,), "lock"),
              ("boxed", (2, 1), "lock"), ("boxed", (4, 1), "lock"), ("retry", (1, 4), "read"), ("retry", (2, 1), "lock")}
 HOLDERS_3 = {("single", (1,), "lock"), ("single", (2,), "lock"), ("single", (2,), "read"), ("owned", (4,), "lock"),
              ("owned", (4,), "read"), ("boxed", (2, 1), "lock"), ("retry", (4, 2), "lock")}
@@ -19,7 +19,7 @@ CORPORA = {
     # two threads, one call each; thread 1 ranges over every kind x arrangement (0..2 members) x API x key style
     "conc2": dict(
         module="MC.tla",
-        quick=dict(consts=dict(Kinds=ALL_KINDS, ApisA=ALL_APIS, CallsB=HOLDERS_2, UnivA={1, 2, 4}, MinLenA=0, MaxLenA=2,
+        quick=dict(consts=dict(Kinds=ALL_KINDS, ApisA=ALL_APIS, CallsB=HOLDERS_2, UnivA={1, 2, 3, 4}, MinLenA=0, MaxLenA=2,
                                Policies={"RP", "WP"}, NT=2, Keys={"owned", "lent"}),
                    parts=14, max_runs=150000),
         thorough=dict(consts=dict(Kinds=ALL_KINDS, ApisA=ALL_APIS,
@@ -73,14 +73,42 @@ CORPORA.update({
                                   SeqHolders={("none", 0), ("lock", 3)}, Policies={"RP"}),
                       parts=16, max_runs=1500000),
     ),
+    # two-item histories over every key-consuming path of every kind (Mutex, RwLock, boxed, retry, Poisonable),
+    # normal and panicking, with a key probe in between
+    "seqkey2": dict(
+        module="MC.tla",
+        quick=dict(consts=dict(Family="seq", SeqColls={1, 2, 3, 4, 8}, SeqApis={"lock", "try_lock", "scoped_lock", "scoped_try_lock"},
+                               SeqRels={"drop", "unlock"}, SeqKeys={"owned", "lent"}, SeqBodies={"none", "panic"},
+                               SeqKeyOps={"probe"}, SeqMaxLen=2, SeqHolders={("none", 0), ("lock", 13)}, Policies={"RP"}),
+                   parts=14, max_runs=60000),
+        thorough=dict(consts=dict(Family="seq", SeqColls={1, 2, 3, 4, 5, 6, 8, 9}, SeqApis=ALL_APIS,
+                                  SeqRels={"drop", "unlock", "forget"}, SeqKeys={"owned", "lent"}, SeqBodies={"none", "panic"},
+                                  SeqKeyOps={"probe"}, SeqMaxLen=2, SeqHolders={("none", 0), ("lock", 13)}, Policies={"RP"}),
+                      parts=16, max_runs=1500000),
+    ),
+    # three-item poison histories: poison, clear (also while the poisoned guard is live), re-poison, observe
+    "poisonseq": dict(
+        module="MC.tla",
+        quick=dict(consts=dict(Family="seq", SeqColls={7, 8}, SeqApis={"lock", "scoped_lock", "read"},
+                               SeqRels={"drop"}, SeqKeys={"owned"}, SeqBodies={"acc", "panic", "clearpanic"},
+                               SeqKeyOps=set(), SeqTopOps={("is_poisoned", 8), ("clear_poison", 8), ("is_poisoned", 7)},
+                               SeqMaxLen=3, SeqHolders={("none", 0)}, Policies={"RP"}),
+                   parts=14, max_runs=60000),
+        thorough=dict(consts=dict(Family="seq", SeqColls={7, 8, 9, 11}, SeqApis={"lock", "try_lock", "scoped_lock", "read", "scoped_read"},
+                                  SeqRels={"drop"}, SeqKeys={"owned"}, SeqBodies={"acc", "panic", "clearpanic"},
+                                  SeqKeyOps=set(), SeqTopOps={("is_poisoned", 8), ("clear_poison", 8), ("is_poisoned", 7),
+                                                              ("clear_poison", 7)},
+                                  SeqMaxLen=3, SeqHolders={("none", 0)}, Policies={"RP"}),
+                      parts=16, max_runs=1500000),
+    ),
     # single-thread sequences over every API flavour x release flavour x key style, with a holder
     "seqapi": dict(
         module="MC.tla",
-        quick=dict(consts=dict(Family="seq", SeqColls={1, 2, 3, 4, 5, 6, 13, 14}, SeqApis=ALL_APIS,
+        quick=dict(consts=dict(Family="seq", SeqColls={1, 3, 4, 6}, SeqApis=ALL_APIS,
                                SeqRels={"drop", "unlock"}, SeqKeys={"owned", "lent"}, SeqBodies={"acc"},
                                SeqKeyOps=set(), SeqMaxLen=2,
-                               SeqHolders={("none", 0), ("lock", 3), ("read", 3), ("lock", 6)}, Policies={"RP", "WP"}),
-                   parts=14, max_runs=100000),
+                               SeqHolders={("none", 0), ("lock", 3), ("read", 3)}, Policies={"RP"}),
+                   parts=14, max_runs=60000),
         thorough=dict(consts=dict(Family="seq", SeqColls={1, 2, 3, 4, 5, 6, 7, 9, 13, 14}, SeqApis=ALL_APIS,
                                   SeqRels={"drop", "unlock", "forget"}, SeqKeys={"owned", "lent"}, SeqBodies={"acc", "none"},
                                   SeqKeyOps={"probe"}, SeqMaxLen=2,
@@ -95,7 +123,7 @@ CORPORA.update({
                                SeqRels={"drop"}, SeqKeys={"owned"}, SeqBodies={"acc", "panic"},
                                SeqKeyOps=set(), SeqTopOps={("is_poisoned", 8), ("clear_poison", 8), ("is_poisoned", 7)},
                                SeqMaxLen=2, SeqHolders={("none", 0)}, Policies={"RP"}),
-                   parts=14, max_runs=100000),
+                   parts=14, max_runs=50000),
         thorough=dict(consts=dict(Family="seq", SeqColls={1, 2, 3, 4, 5, 6, 7, 8, 9, 10, 11, 12, 15, 16}, SeqApis=ALL_APIS,
                                   SeqRels={"drop", "unlock"}, SeqKeys={"owned", "lent"}, SeqBodies={"acc", "panic"},
                                   SeqKeyOps={"probe"}, SeqTopOps={("is_poisoned", 8), ("clear_poison", 8), ("is_poisoned", 7),
@@ -178,9 +206,9 @@ PROPS = {
     "C08": dict(corpora=["conc2", "size3"], design="DESIGN.md §5 C08"),
     "C09": dict(corpora=["conc2", "size3", "conc3"], design="DESIGN.md §5 C09"),
     "C13": dict(corpora=["conc2", "seqapi"], design="DESIGN.md §5 C13"),
-    "C06": dict(corpora=["seqkey"], design="DESIGN.md §5 C06"),
-    "C10": dict(corpora=["panic"], design="DESIGN.md §5 C10"),
-    "C11": dict(corpora=["concpanic", "panic"], design="DESIGN.md §5 C11"),
+    "C06": dict(corpora=["seqkey", "seqkey2"], design="DESIGN.md §5 C06"),
+    "C10": dict(corpora=["panic", "poisonseq"], design="DESIGN.md §5 C10"),
+    "C11": dict(corpora=["concpanic", "panic", "seqkey2"], design="DESIGN.md §5 C11"),
     "C17": dict(corpora=["ops"], design="DESIGN.md §5 C17"),
     "C12": dict(corpora=["fault"], design="DESIGN.md §5 C12"),
     "C07": dict(corpora=["ctor"], design="DESIGN.md §5 C07"),
